@@ -691,9 +691,21 @@ fn minimise_via_child(root: &Path, rep: &Replay) -> Result<Replay, String> {
         return Err(String::from_utf8_lossy(&o.stderr).lines().last().unwrap_or("minimiser failed").to_string());
     }
     let stdout = String::from_utf8_lossy(&o.stdout);
-    match stdout.lines().find_map(|l| l.strip_prefix("MINIMISED ")) {
-        Some(j) => serde_json::from_str(j).map_err(|e| e.to_string()),
-        None => Ok(rep.clone()), // the minimiser itself died: keep the original trace
+    let min: Replay = match stdout.lines().find_map(|l| l.strip_prefix("MINIMISED ")) {
+        Some(j) => serde_json::from_str(j).map_err(|e| e.to_string())?,
+        None => return Ok(rep.clone()), // the minimiser itself died: keep the original trace
+    };
+    // The minimiser runs many executions in one process; after executions that panicked or
+    // corrupted memory its verdicts can be off. What gets reported must fail in a fresh process:
+    // otherwise the recorded, unminimised trace is reported instead.
+    let probe = tmp_dir(root).join("minimised-probe.json");
+    std::fs::write(&probe, serde_json::to_string(&min).unwrap()).map_err(|e| e.to_string())?;
+    match output_with_timeout(Command::new(bin_for_runner(&rep.runner)).arg("replay-inproc").arg(&probe), 180) {
+        Ok(o) if o.status.code() == Some(0) => {
+            println!("note: the minimised trace does not fail in a fresh process; reporting the recorded trace instead");
+            Ok(rep.clone())
+        }
+        _ => Ok(min),
     }
 }
 
